@@ -1,0 +1,37 @@
+//go:build verif
+
+package tsm1
+
+// VerifParts returns copies of what the cache holds, split into the snapshot part (a snapshot
+// being flushed, or one retained after a failed write) and the live store.  Used by the
+// verification harness to observe a source shard before a backup.
+func (c *Cache) VerifParts() (snapshot, live map[string]Values) {
+	snapshot, live = map[string]Values{}, map[string]Values{}
+	c.mu.RLock()
+	store := c.store
+	var snap storer
+	if c.snapshot != nil {
+		snap = c.snapshot.store
+	}
+	c.mu.RUnlock()
+	dump := func(s storer, out map[string]Values) {
+		if s == nil {
+			return
+		}
+		for _, k := range s.keys(true) {
+			e := s.entry(k)
+			if e == nil {
+				continue
+			}
+			e.deduplicate()
+			e.mu.RLock()
+			if len(e.values) > 0 {
+				out[string(k)] = append(Values(nil), e.values...)
+			}
+			e.mu.RUnlock()
+		}
+	}
+	dump(snap, snapshot)
+	dump(store, live)
+	return snapshot, live
+}
